@@ -22,7 +22,7 @@ RULE = ("multi-threaded workloads (`probe --threads <spec>`): 16..64 threads, ea
         "mode the rounding kernel actually read (hook). The monitor replays each thread's own history: every default() "
         "and every operation result must equal the oracle under the mode last set by that same thread, HalfEven for a "
         "new thread whatever its parent set. Runs natively (dev + release), under Miri with different scheduler seeds "
-        "(data-race and UB detection, distinct interleavings) and, thorough tier, under ThreadSanitizer. Non-trivial = "
+        "(data-race and UB detection, distinct interleavings) and under ThreadSanitizer (-Zbuild-std). Non-trivial = "
         "operation executed by a thread whose mode differs from the mode of the thread that ran immediately before it "
         "in the global order, or from HalfEven")
 BUDGET = {"quick": 60, "thorough": 900}
@@ -287,14 +287,15 @@ def main(tier, seed):
         res = check_log(p.stdout, bats, name)
         account(name, res, spec)
     phase["miri"] = round(time.time() - t0 - phase["native"], 1)
-    # 3. ThreadSanitizer (thorough)
-    if tier == "thorough":
+    t_tsan = time.time()
+    # 3. ThreadSanitizer
+    if True:
         try:
             tsan = B.build("dev", (), kind="tsan")
             e = dict(os.environ)
             e["TSAN_OPTIONS"] = "halt_on_error=0:exitcode=66"
-            for r in range(4):
-                spec_text, bats = make_spec(rng, 32, 60)
+            for r in range(1 if tier == "quick" else 6):
+                spec_text, bats = make_spec(rng, 32, 25 if tier == "quick" else 60, depth=1 if tier == "quick" else 2)
                 name = "tsan-%d" % r
                 p, spec = run_native(tsan, spec_text, wdir, name, env=e, timeout=1500)
                 rep = E.classify_tool_output(p.stderr)
@@ -309,6 +310,7 @@ def main(tier, seed):
                 account(name, check_log(p.stdout, bats, name), spec)
         except (B.BuildError, subprocess.TimeoutExpired) as ex_:
             errors.append("tsan: %s" % str(ex_)[-300:])
+    phase["tsan"] = round(time.time() - t_tsan, 1)
     # verdict
     code = 0
     lines = []
